@@ -266,6 +266,20 @@ class PyEngine:
         outs = []
         parts = [x for kv in zip(n.keys, n.values) for x in kv if x is not None]
         for s2, vals in self.ev_seq(parts, st):
+            if all(k is not None for k in n.keys):
+                ks, vs = vals[0::2], vals[1::2]
+                if all(is_z3(k) for k in ks) and len({k.sort() for k in ks}) <= 1:
+                    # {k1: v1, ...} with key terms of one sort: a functional dict, later entries win
+                    def has(q, ks=ks):
+                        return z3.Or(*[q == k for k in ks]) if ks else z3.BoolVal(False)
+
+                    def val(q, ks=ks, vs=vs):
+                        out = z3.Const('value_of_a_missing_key', Ref) if all(is_z3(v) and v.sort() == Ref for v in vs) else OpaqueV('missing')
+                        for k, v in zip(ks, vs):
+                            out = self.ite(q == k, v, out)
+                        return out
+                    outs.append((s2, MapV(has, val)))
+                    continue
             outs.append((s2, OpaqueV(f'dict-display@L{n.lineno}')))
         return outs
 
@@ -410,6 +424,20 @@ class PyEngine:
         if isinstance(op, (ast.In, ast.NotIn)) and isinstance(b, TupV):
             e = z3.Or(*[self.equal(st, a, x) for x in b.items]) if b.items else z3.BoolVal(False)
             return e if isinstance(op, ast.In) else z3.Not(e)
+        if isinstance(op, (ast.In, ast.NotIn)) and is_z3(b) and b.sort() == Ref and is_z3(a):
+            # `x in obj` for an object reference: an uninterpreted membership test (obj.__contains__)
+            e = z3.Function(f'py_contains_{a.sort().name()}', Ref, a.sort(), Bool)(b, a)
+            return e if isinstance(op, ast.In) else z3.Not(e)
+        if isinstance(op, (ast.Lt, ast.LtE, ast.Gt, ast.GtE)) and isinstance(a, TupV) and isinstance(b, TupV) \
+                and len(a.items) == len(b.items) and a.items:
+            # lexicographic comparison of integer tuples of equal length (e.g. sys.version_info[:2] >= (3, 10))
+            xs, ys = [self.as_int(v) for v in a.items], [self.as_int(v) for v in b.items]
+            strict = z3.BoolVal(False)
+            for k in range(len(xs) - 1, -1, -1):
+                lt = xs[k] < ys[k] if isinstance(op, (ast.Lt, ast.LtE)) else xs[k] > ys[k]
+                strict = z3.Or(lt, z3.And(xs[k] == ys[k], strict))
+            eq = z3.And(*[x == y for x, y in zip(xs, ys)])
+            return z3.Or(strict, eq) if isinstance(op, (ast.LtE, ast.GtE)) else strict
         if isinstance(op, (ast.Lt, ast.LtE, ast.Gt, ast.GtE)):
             x, y = self.as_int(a), self.as_int(b)
             return {ast.Lt: x < y, ast.LtE: x <= y, ast.Gt: x > y, ast.GtE: x >= y}[type(op)]
